@@ -52,11 +52,12 @@ def _arr(b: bytes) -> bytes:
     return len(b).to_bytes(4, 'big') + b
 
 
-def encode(e) -> bytes:
+def encode(e, zint=enc_zint) -> bytes:
+    """`zint` may be replaced by a caller that wants a particular (e.g. non-minimal) integer spelling."""
     if isinstance(e, list):
-        return b'\x02' + _arr(b''.join(encode(x) for x in e))
+        return b'\x02' + _arr(b''.join(encode(x, zint) for x in e))
     if 'int' in e:
-        return b'\x00' + enc_zint(int(e['int']))
+        return b'\x00' + zint(int(e['int']))
     if 'string' in e:
         return b'\x01' + _arr(e['string'].encode())
     if 'bytes' in e:
@@ -69,24 +70,33 @@ def encode(e) -> bytes:
     if n == 0:
         return (b'\x04' + tag + ann) if annots else (b'\x03' + tag)
     if n == 1:
-        return (b'\x06' if annots else b'\x05') + tag + encode(args[0]) + (ann if annots else b'')
+        return (b'\x06' if annots else b'\x05') + tag + encode(args[0], zint) + (ann if annots else b'')
     if n == 2:
-        return (b'\x08' if annots else b'\x07') + tag + encode(args[0]) + encode(args[1]) + (ann if annots else b'')
-    return b'\x09' + tag + _arr(b''.join(encode(x) for x in args)) + ann
+        return (b'\x08' if annots else b'\x07') + tag + encode(args[0], zint) + encode(args[1], zint) + (ann if annots else b'')
+    return b'\x09' + tag + _arr(b''.join(encode(x, zint) for x in args)) + ann
 
 
 class DecodeError(ValueError):
-    pass
+    """`kind` names the rule that rejected the input: truncated | overrun | nonminimal | negzero | unknown-prim |
+    unknown-tag | utf8 | trailing."""
+
+    def __init__(self, msg, kind=None):
+        super().__init__(msg)
+        self.kind = kind
 
 
-def decode(data: bytes):
+def decode(data: bytes, lenient=False):
     """Strict decoder: rejects unknown tags / prim tags, inconsistent or truncated length prefixes,
-    trailing bytes and non-minimal integers (a final group of zero bits)."""
+    trailing bytes and non-minimal integers (a final group of zero bits).
+    It also rejects two things the data-encoding layer of Octez is NOT known to reject (a zero with the sign bit
+    set, and string/annotation bytes that are not UTF-8, which JSON Micheline cannot carry); `lenient=True` accepts
+    the former and decodes the latter with errors='surrogateescape', so that a caller can tell "rejected only by
+    these extra rules" (=> no verdict) from "rejected by a rule Tezos certainly has"."""
     pos = 0
 
     def need(n):
         if pos + n > len(data):
-            raise DecodeError('truncated')
+            raise DecodeError('truncated', 'truncated')
 
     def u8():
         nonlocal pos
@@ -110,7 +120,7 @@ def decode(data: bytes):
         while pos < n_end:
             out.append(node())
         if pos != n_end:
-            raise DecodeError('sequence overruns its length prefix')
+            raise DecodeError('sequence overruns its length prefix', 'overrun')
         return out
 
     def seq():
@@ -134,22 +144,22 @@ def decode(data: bytes):
             v |= (last & 0x7F) << shift
             shift += 7
         if not first and last == 0:
-            raise DecodeError('non-minimal integer (trailing zero group)')
-        if neg and v == 0:
-            raise DecodeError('negative zero')
+            raise DecodeError('non-minimal integer (trailing zero group)', 'nonminimal')
+        if neg and v == 0 and not lenient:
+            raise DecodeError('negative zero', 'negzero')
         return -v if neg else v
 
     def prim():
         t = u8()
         if t >= len(PRIMS):
-            raise DecodeError(f'unknown primitive tag {t}')
+            raise DecodeError(f'unknown primitive tag {t}', 'unknown-prim')
         return PRIMS[t]
 
     def annots_of(b):
         try:
-            s = b.decode()
+            s = b.decode('utf-8', 'surrogateescape' if lenient else 'strict')
         except UnicodeDecodeError:
-            raise DecodeError('annotation bytes')
+            raise DecodeError('annotation bytes', 'utf8')
         return s.split(' ') if s else []
 
     def node():
@@ -158,9 +168,9 @@ def decode(data: bytes):
             return {'int': str(zint())}
         if t == 1:
             try:
-                return {'string': arr().decode()}
+                return {'string': arr().decode('utf-8', 'surrogateescape' if lenient else 'strict')}
             except UnicodeDecodeError:
-                raise DecodeError('string bytes')
+                raise DecodeError('string bytes', 'utf8')
         if t == 2:
             return seq()
         if t == 0x0a:
@@ -178,11 +188,11 @@ def decode(data: bytes):
                 if a:
                     e['annots'] = a
             return e
-        raise DecodeError(f'unknown tag {t}')
+        raise DecodeError(f'unknown tag {t}', 'unknown-tag')
 
     r = node()
     if pos != len(data):
-        raise DecodeError('trailing bytes')
+        raise DecodeError('trailing bytes', 'trailing')
     return r
 
 
@@ -228,4 +238,35 @@ def selftest() -> int:
         except DecodeError:
             continue
         raise AssertionError('strict decoder accepted ' + bad)
-    return len(v) + 7
+    n = len(v) + 7
+    # Octez vector of tests/unit_tests/test_michelson/test_repl/test_opcodes.py (packunpack.tz): the first literal
+    # unpacks on Octez, the second (same bytes + 0004) is expected to fail there (trailing bytes)
+    toto = {'prim': 'Pair', 'args': [{'prim': 'Pair', 'args': [{'string': 'toto'}, [{'int': '3'}, {'int': '7'}, {'int': '9'}, {'int': '1'}]]},
+                                     [{'int': '1'}, {'int': '2'}, {'int': '3'}]]}
+    h = '070707070100000004746f746f020000000800030007000900010200000006000100020003'
+    assert encode(toto).hex() == h and decode(bytes.fromhex(h)) == toto
+    try:
+        decode(bytes.fromhex(h + '0004'))
+        raise AssertionError('trailing bytes accepted')
+    except DecodeError as e:
+        assert e.kind == 'trailing'
+    n += 2
+    # lenient mode differs from strict mode only on the two extra rules
+    assert decode(bytes.fromhex('0040'), lenient=True) == {'int': '0'}
+    assert decode(bytes.fromhex('0100000001ff'), lenient=True) == {'string': '\udcff'}
+    n += 2
+    # code and storage of the recorded mainnet contracts: encode -> decode -> encode is the identity
+    import glob
+    import json
+    import os
+    repo = os.environ.get('VERIF_REPO', '/repo')
+    for path in sorted(glob.glob(os.path.join(repo, 'tests/contract_tests/*/__script__.json'))):
+        with open(path) as f:
+            script = json.load(f)
+        for part in ('code', 'storage'):
+            e = script[part]
+            b = encode(e)
+            assert decode(b) == normalize(e), path
+            assert encode(decode(b)) == b, path
+            n += 1
+    return n
